@@ -35,6 +35,30 @@ def specC05 (j : Json) : Json :=
         | .error er => ((errTag er).setObjVal! "class_d30" d30).setObjVal! "model_groups" modelGroups)
       Json.mkObj [("terms", Json.arr terms.toArray)]
 
+/-- Spec.C05.checkNew (block structure of the per-term blocks of an object returned by
+`evaluate_new_data`) on what the implementation returned; "frame" is the NEW frame -/
+def specC05New (j : Json) : Json :=
+  let s := getStr j "formula"
+  match Scanner.scan s.toList with
+  | .error _ => errJ "scan"
+  | .ok ts =>
+    match Parser.parse Generated.parserTable ts with
+    | .error _ => errJ "parse"
+    | .ok e =>
+      let table := atomTable e
+      let frame := frameOfJson ((j.getObjVal? "frame").toOption.getD Json.null)
+      let names := namesOfJson ((j.getObjVal? "names").toOption.getD Json.null)
+      let env : Env := { frame, names }
+      let terms := (getArr j "terms").map (fun t =>
+        let x := matrixOfJson ((t.getObjVal? "x").toOption.getD Json.null)
+        let z := matrixOfJson ((t.getObjVal? "z").toOption.getD Json.null)
+        let d30 := Spec.C05.classD30 table (strList t "factor")
+        match Spec.C05.checkNew env table (strList t "factor") (strList t "groups") x z with
+        | .ok v => Json.mkObj [("blocks_ok", v.blocksOk), ("any_unseen", v.anyUnseen),
+                               ("class_d30", d30)]
+        | .error er => (errTag er).setObjVal! "class_d30" d30)
+      Json.mkObj [("terms", Json.arr terms.toArray)]
+
 def termDescOfJson (j : Json) : Option Encoding.TermDesc :=
   if getBool j "i" then some .intercept else
   match (getArr j "c").filterMap (fun c =>
@@ -69,6 +93,7 @@ def handle (op : String) (j : Json) : Option Json :=
   match op with
   | "c05_rule" => some (ruleOp j)
   | "c05_spec" => some (specC05 j)
+  | "c05_new_spec" => some (specC05New j)
   | _ => none
 
 end FormulaeModel.Driver.C05
